@@ -89,6 +89,31 @@ pub fn bodies(params: &[&str], thorough: bool) -> Vec<Body> {
             }
         }
     }
+    // a unit literal as a leaf (it mixes a concrete base dimension with the parameters' type
+    // variables): every one-node body containing it, and every two-node body built from those or by
+    // combining it with a one-node body
+    let mut sunit: Vec<Body> = vec![];
+    {
+        let u = Body { text: "(2 m)".into(), size: 0, leaf: true };
+        let mut s1u: Vec<Body> = unary(&u, false);
+        s1u.extend(binary(&u, &u));
+        for a in &l0 {
+            s1u.extend(binary(a, &u));
+            s1u.extend(binary(&u, a));
+        }
+        for t in &s1u {
+            sunit.extend(unary(t, true));
+            for a in l0.iter().chain(std::iter::once(&u)) {
+                sunit.extend(binary(t, a));
+                sunit.extend(binary(a, t));
+            }
+        }
+        for t in s1.iter().filter(|t| !t.text.starts_with("if ")) {
+            sunit.extend(binary(t, &u));
+            sunit.extend(binary(&u, t));
+        }
+        sunit.extend(s1u);
+    }
     // equality conditions: every one-node conditional, and two-node ones with the nested term in a branch
     let mut seq: Vec<Body> = vec![];
     for op in ["==", "!="] {
@@ -156,6 +181,7 @@ pub fn bodies(params: &[&str], thorough: bool) -> Vec<Body> {
     all.extend(s2);
     all.extend(s3);
     all.extend(seq);
+    all.extend(sunit);
     let mut seen = std::collections::HashSet::new();
     all.retain(|b| seen.insert(b.text.clone()));
     all
@@ -367,7 +393,7 @@ pub fn check(rep: &mut Report) {
     rep.set("verdicts", json!(counts));
     rep.set("calls_compared", json!(calls * 2));
     rep.set("argument_alphabet", json!(&ARGS[..nargs]));
-    rep.rule = "every unannotated body with <= 2 operator nodes over leaves {x, 2} (thorough: + the polymorphic 0) / {x, y, 2} (unary: -, ^e for e in {2,3,-1,1/2,1/3,1/5,2/3,0}, sqrt, sqr, abs, cbrt; binary: * / + hypot2 mean head; conditionals `if l > r then a else b`; plus `==` / `!=` conditions for every one-node conditional and for two-node ones with the nested term in a branch), plus every binary operator applied to two one-node operands (thorough: full unary set, conditionals over them, and every unary of a two-node body); for each accepted body: printed signature + original body re-declared in a second clone, signatures compared, and every argument tuple from the value alphabet (quick 6: Scalar, Length, Bool, Time, the polymorphic 0, Length² — the first 4 for two-parameter bodies; thorough 10: + Velocity, Mass, 1/Time, Length^15) called on both; non-trivial = accepted bodies (each compared on all call tuples)".into();
+    rep.rule = "every unannotated body with <= 2 operator nodes over leaves {x, 2} (thorough: + the polymorphic 0) / {x, y, 2} (unary: -, ^e for e in {2,3,-1,1/2,1/3,1/5,2/3,0}, sqrt, sqr, abs, cbrt; binary: * / + hypot2 mean head; conditionals `if l > r then a else b`; plus `==` / `!=` conditions for every one-node conditional and for two-node ones with the nested term in a branch), plus every one- and two-node body containing the unit literal `2 m` as a leaf (conditionals excepted), plus every binary operator applied to two one-node operands (thorough: full unary set, conditionals over them, and every unary of a two-node body); for each accepted body: printed signature + original body re-declared in a second clone, signatures compared, and every argument tuple from the value alphabet (quick 6: Scalar, Length, Bool, Time, the polymorphic 0, Length² — the first 4 for two-parameter bodies; thorough 10: + Velocity, Mass, 1/Time, Length^15) called on both; non-trivial = accepted bodies (each compared on all call tuples)".into();
     rep.assumptions = vec![
         "the printed signature is the text before ` = ` of Statement::pretty_print of the accepted definition".into(),
         "the session loads only core::functions, core::lists, math::statistics, math::geometry and units::si; both definitions use the same function name in two copies of it that evolve in lockstep (refreshed every 32 bodies), so results and error texts are compared literally; exponent spelling (A² vs A^2) is not compared".into(),
